@@ -307,23 +307,189 @@ theorem setActive_same (s : State) (n : Str) : Same s (setActive s n).1 := by
 
 theorem Same.grow {s s' : State} (h : Same s s') : Grow s s' := ⟨by rw [h.2]; exact Nat.le_refl _, Or.inl h.1⟩
 
-theorem freshOk_one {s : State} {h seed : Nat} (hf : freshOk s [h] seed = true) : s.next ≤ h ∧ h < seed := by
+theorem freshOk_one {s : State} {h seed : Nat} {l : List Nat} (hf : freshOk s (h :: l) seed = true) :
+    s.next ≤ h ∧ h < seed := by
   simp [freshOk] at hf
   omega
+
+theorem freshOk_all {s : State} {l : List Nat} {seed : Nat} (hf : freshOk s l seed = true) :
+    l.Nodup ∧ ∀ h ∈ l, s.next ≤ h ∧ h < seed := by
+  simp only [freshOk, Bool.and_eq_true, List.all_eq_true, decide_eq_true_eq] at hf
+  exact ⟨hf.2, fun h hh => hf.1.1 h hh⟩
 
 theorem freshOk_seed {s : State} {l : List Nat} {seed : Nat} (hf : freshOk s l seed = true) : s.next ≤ seed := by
   simp [freshOk] at hf
   omega
 
-theorem newEnt_grow (s : State) (k h seed : Nat) (r : Option Str) : Grow s (newEnt s k h seed r).1 := by
+theorem newEnt_grow (s : State) (k h seed : Nat) (r : Option Str) (subs : List Nat) :
+    Grow s (newEnt s k h seed r subs).1 := by
   unfold newEnt
   split
   · exact (Same.rfl' s).grow
   · split
     · rename_i hf
       have := freshOk_one hf
-      refine ⟨by simp; omega, Or.inr ⟨h, by simp [hs], this.1, by simpa using this.2⟩⟩
+      refine ⟨by simp; omega, Or.inr (Or.inl ⟨h, by simp [hs], this.1, by simpa using this.2⟩)⟩
     · exact (Same.rfl' s).grow
+
+/-! ### explode: handles of the new entities -/
+
+theorem explode_handles (f : Nat × Nat × List Nat → Nat) (hf : ∀ p, f p = p.2.1) :
+    ∀ (src : List Nat) (news : List (Nat × List Nat)), news.length = src.length →
+    (src.zip news).map f = news.map (·.1)
+  | [], [], _ => by simp
+  | [], n :: r, h => by simp at h
+  | a :: t, [], h => by simp at h
+  | a :: t, n :: r, h => by
+    simp only [List.zip_cons_cons, List.map_cons, hf]
+    rw [explode_handles f hf t r (by simpa using h)]
+
+theorem explodeEnts_hs (s : State) (k : Nat) (src : List Nat) (news : List (Nat × List Nat)) (texts : List Nat)
+    (hl : news.length = src.length) : (explodeEnts s k src news texts).map (·.h) = news.map (·.1) ++ texts := by
+  simp only [explodeEnts, List.map_append, List.map_map, Function.comp_def, List.map_id']
+  rw [explode_handles _ (fun _ => rfl) src news hl]
+
+theorem heads_sublist : ∀ (news : List (Nat × List Nat)),
+    (news.map (·.1)).Sublist ((news.map (fun p => p.1 :: p.2)).flatten)
+  | [] => by simp
+  | n :: r => by
+    simp only [List.map_cons, List.flatten_cons, List.cons_append]
+    exact List.Sublist.cons_cons _ ((heads_sublist r).trans (List.sublist_append_right _ _))
+
+theorem shapeOk_len {s : State} {src : List Nat} {news : List (Nat × List Nat)}
+    (h : shapeOk s src news = true) : news.length = src.length := by
+  simp only [shapeOk, Bool.and_eq_true, decide_eq_true_eq] at h
+  exact h.1
+
+theorem textsOk_spec {s : State} {texts : List Nat} (h : textsOk s texts = true) :
+    texts.Nodup ∧ ∀ x ∈ texts, x ∉ hs s ∧ x < s.next := by
+  simp only [textsOk, Bool.and_eq_true, List.all_eq_true, decide_eq_true_eq, bne_iff_ne, ne_eq] at h
+  refine ⟨h.2, fun x hx => ⟨?_, (h.1 x hx).2⟩⟩
+  intro hm
+  simp only [hs, List.mem_map] at hm
+  obtain ⟨y, hy, hyx⟩ := hm
+  exact (h.1 x hx).1 y hy hyx
+
+/-- the handles appended by explode: fresh ones for the copies, the ATTRIB handles for the TEXTs -/
+theorem explode_new_handles {s : State} {news : List (Nat × List Nat)} {texts : List Nat} {seed : Nat}
+    (hfresh : freshOk s ((news.map (fun p => p.1 :: p.2)).flatten) seed = true) (htexts : textsOk s texts = true) :
+    (news.map (·.1) ++ texts).Nodup ∧
+    (∀ x ∈ news.map (·.1) ++ texts, (s.next ≤ x ∨ x ∉ hs s) ∧ x < seed) := by
+  have hall := freshOk_all hfresh
+  have ht := textsOk_spec htexts
+  have hseed := freshOk_seed hfresh
+  have hl : ∀ x ∈ news.map (·.1), s.next ≤ x ∧ x < seed :=
+    fun x hx => hall.2 x ((heads_sublist news).subset hx)
+  refine ⟨List.nodup_append.mpr ⟨hall.1.sublist (heads_sublist news), ht.1, ?_⟩, ?_⟩
+  · intro a ha b hb hab
+    subst hab
+    have := (hl a ha).1; have := (ht.2 a hb).2; omega
+  · intro x hx
+    simp only [List.mem_append] at hx
+    rcases hx with hx | hx
+    · exact ⟨Or.inl (hl x hx).1, (hl x hx).2⟩
+    · exact ⟨Or.inr (ht.2 x hx).1, by have := (ht.2 x hx).2; omega⟩
+
+/-- case analysis of `insert.explode()`: rejected (state unchanged), or the block content was copied -/
+theorem explode_cases (s : State) (e : Nat) (news : List (Nat × List Nat)) (seed : Nat) :
+    (∃ er, step s (.explode e news seed) = (s, .err er)) ∨
+    ∃ x name k b s', findEnt s e = some x ∧ x.alive = true ∧ x.ref = some name ∧ x.owner = some k ∧
+      (spaceOf s k).isSome = true ∧ blockBr s (lower name) = some b ∧
+      shapeOk s (liveContent s b) news = true ∧
+      freshOk s ((news.map (fun p => p.1 :: p.2)).flatten) seed = true ∧
+      textsOk s (x.subs.take (x.subs.length - 1)) = true ∧
+      explodeCore s e k (liveContent s b) news (x.subs.take (x.subs.length - 1)) seed = some s' ∧
+      step s (.explode e news seed) = (s', .ok) := by
+  simp only [step]
+  split
+  · exact Or.inl ⟨_, rfl⟩
+  · rename_i x hx
+    split
+    · exact Or.inl ⟨_, rfl⟩
+    · rename_i hal
+      split
+      · rename_i name k hr ho
+        split
+        · exact Or.inl ⟨_, rfl⟩
+        · rename_i sp hsp
+          split
+          · exact Or.inl ⟨_, rfl⟩
+          · rename_i b hb
+            split
+            · rename_i hc
+              split
+              · rename_i s' hs'
+                simp only [Bool.and_eq_true] at hc
+                exact Or.inr ⟨x, name, k, b, s', hx, by simpa using hal, hr, ho, by simp [hsp], hb, hc.1.1, hc.1.2,
+                  hc.2, hs', rfl⟩
+              · exact Or.inl ⟨_, rfl⟩
+            · exact Or.inl ⟨_, rfl⟩
+      · exact Or.inl ⟨_, rfl⟩
+      · exact Or.inl ⟨_, rfl⟩
+
+theorem explodeCore_parts {s s' : State} {e k : Nat} {src : List Nat} {news : List (Nat × List Nat)} {texts : List Nat}
+    {seed : Nat} (hcore : explodeCore s e k src news texts seed = some s') :
+    ∃ s2, unlinkCore (explodeMid s k src news texts seed) k e = some s2 ∧
+      s' = dropAttribs (destroyEnt s2 e) e := by
+  unfold explodeCore at hcore
+  split at hcore
+  · rename_i s2 h2
+    cases hcore
+    exact ⟨s2, h2, rfl⟩
+  · cases hcore
+
+theorem explodeCore_hs {s s' : State} {e k : Nat} {src : List Nat} {news : List (Nat × List Nat)} {texts : List Nat}
+    {seed : Nat} (hshape : shapeOk s src news = true) (hcore : explodeCore s e k src news texts seed = some s') :
+    hs s' = hs s ++ (news.map (·.1) ++ texts) ∧ s'.next = seed := by
+  obtain ⟨s2, h2, rfl⟩ := explodeCore_parts hcore
+  have a := unlinkCore_same _ _ _ _ h2
+  have b := destroyEnt_same s2 e
+  have c : Same (destroyEnt s2 e) (dropAttribs (destroyEnt s2 e) e) := ⟨setEnt_hs _ _ _ (fun _ => rfl), rfl⟩
+  refine ⟨?_, by rw [c.2, b.2, a.2]; rfl⟩
+  rw [c.1, b.1, a.1]
+  simp only [hs, explodeMid, List.map_append]
+  rw [explodeEnts_hs s k src news texts (shapeOk_len hshape)]
+
+theorem explodeCore_grow {s s' : State} {e k : Nat} {src : List Nat} {news : List (Nat × List Nat)} {texts : List Nat}
+    {seed : Nat} (hshape : shapeOk s src news = true)
+    (hfresh : freshOk s ((news.map (fun p => p.1 :: p.2)).flatten) seed = true) (htexts : textsOk s texts = true)
+    (hcore : explodeCore s e k src news texts seed = some s') : Grow s s' := by
+  obtain ⟨h1, h2⟩ := explodeCore_hs hshape hcore
+  obtain ⟨hn, hb⟩ := explode_new_handles hfresh htexts
+  refine ⟨by rw [h2]; exact freshOk_seed hfresh, Or.inr (Or.inr ⟨_, h1, hn, ?_⟩)⟩
+  intro h hh
+  rw [h2]
+  exact hb h hh
+
+theorem auditEntities_hs (s : State) : hs (auditEntities s) = hs s := by
+  simp only [hs, auditEntities]
+  apply map_fields_hs
+  intro x; split <;> rfl
+
+theorem dropAll_same : ∀ (l : List Nat) (s : State), Same s (dropAll s l)
+  | [], s => Same.rfl' s
+  | a :: r, s => by
+    simp only [dropAll, List.foldl_cons]
+    exact Same.trans' (dropContainer_same s a) (dropAll_same r _)
+
+/-- `restoreActive` only renames a block: every other field is untouched -/
+theorem restoreActive_eq (t : State) : ∃ bl, restoreActive t = { t with blocks := bl } := by
+  unfold restoreActive
+  split
+  · split
+    · exact ⟨_, rfl⟩
+    · exact ⟨t.blocks, rfl⟩
+  · exact ⟨t.blocks, rfl⟩
+
+theorem auditLayouts_eq (t : State) : ∃ bl, auditLayouts t = { dropAll t (orphanBlocks t) with blocks := bl } :=
+  restoreActive_eq _
+
+theorem audit_hs (s : State) : hs (audit s).1 = hs s := by
+  show hs (auditEntities (auditLayouts (auditSpaces s))) = hs s
+  rw [auditEntities_hs]
+  obtain ⟨bl, hbl⟩ := auditLayouts_eq (auditSpaces s)
+  rw [hbl]
+  exact (dropAll_same _ _).1
 
 /-- what a step does to the handle history: nothing, or one fresh handle appended -/
 theorem step_grow (s : State) (op : Op) : Grow s (step s op).1 := by
@@ -355,11 +521,59 @@ theorem step_grow (s : State) (op : Op) : Grow s (step s op).1 := by
     · rename_i s1 h1
       exact (Same.trans' (unlinkCore_same _ _ _ _ h1) (destroyEnt_same s1 e)).grow
   | destroy e => exact (destroyEnt_same s e).grow
-  | copy e k h seed =>
+  | copy e k h subs seed =>
     simp only [step]; split
     · split
-      · exact newEnt_grow ..
+      · split
+        · exact newEnt_grow ..
+        · exact (Same.rfl' s).grow
       · exact (Same.rfl' s).grow
+    · exact (Same.rfl' s).grow
+  | addL k r h subs seed => exact newEnt_grow ..
+  | explode e news seed =>
+    rcases explode_cases s e news seed with ⟨er, h0⟩ | ⟨x, name, k, b, s', hx, hal, hr, ho, hsp, hb, hshape, hfresh, htexts, hcore, hstep⟩
+    · rw [h0]; exact (Same.rfl' s).grow
+    · rw [hstep]
+      exact explodeCore_grow hshape hfresh htexts hcore
+  | audit seed =>
+    simp only [step]; split
+    · rename_i hle
+      exact ⟨by simpa using hle, Or.inl (audit_hs s)⟩
+    · exact (Same.rfl' s).grow
+  | addEntry t n seed =>
+    simp only [step]; split
+    · exact (Same.rfl' s).grow
+    · split
+      · rename_i hf
+        exact ⟨freshOk_seed hf, Or.inl rfl⟩
+      · exact (Same.rfl' s).grow
+  | delEntry t n =>
+    simp only [step]; split
+    · exact Same.grow ⟨rfl, rfl⟩
+    · exact (Same.rfl' s).grow
+  | dupEntry t a b seed =>
+    simp only [step]; split
+    · exact (Same.rfl' s).grow
+    · split
+      · rename_i hf
+        exact ⟨freshOk_seed hf, Or.inl rfl⟩
+      · exact (Same.rfl' s).grow
+  | newGroup n h seed =>
+    simp only [step]; split
+    · exact (Same.rfl' s).grow
+    · split
+      · rename_i hf
+        exact ⟨freshOk_seed hf, Or.inl rfl⟩
+      · exact (Same.rfl' s).grow
+  | setGroup n ms =>
+    simp only [step]; split
+    · exact (Same.rfl' s).grow
+    · split
+      · exact Same.grow ⟨rfl, rfl⟩
+      · exact (Same.rfl' s).grow
+  | delGroup n =>
+    simp only [step]; split
+    · exact Same.grow ⟨rfl, rfl⟩
     · exact (Same.rfl' s).grow
   | purge =>
     refine Same.grow ⟨?_, rfl⟩
@@ -436,9 +650,23 @@ theorem step_grow (s : State) (op : Op) : Grow s (step s op).1 := by
 theorem step_HInv (s : State) (op : Op) (h : HInv s) : HInv (step s op).1 := by
   obtain ⟨hn, hb⟩ := h
   obtain ⟨hle, hcase⟩ := step_grow s op
-  rcases hcase with heq | ⟨x, heq, hx1, hx2⟩
+  rcases hcase with heq | ⟨x, heq, hx1, hx2⟩ | ⟨l, heq, hl, hfr⟩
   · refine ⟨by rw [heq]; exact hn, ?_⟩
     intro y hy; rw [heq] at hy; have := hb y hy; omega
+  rotate_left
+  · refine ⟨?_, ?_⟩
+    · rw [heq]
+      refine List.nodup_append.mpr ⟨hn, hl, ?_⟩
+      intro a ha b hb' hab
+      subst hab
+      rcases (hfr a hb').1 with h1 | h1
+      · have := hb a ha; omega
+      · exact h1 ha
+    · intro y hy; rw [heq] at hy
+      simp only [List.mem_append] at hy
+      rcases hy with hy | hy
+      · have := hb y hy; omega
+      · exact (hfr y hy).2
   · refine ⟨?_, ?_⟩
     · rw [heq]
       refine List.nodup_append.mpr ⟨hn, by simp, ?_⟩
@@ -543,8 +771,8 @@ theorem dropContainer_SInv (s : State) (br : Nat) (hi : SInv s.spaces (hs s) s.n
     (allH_filter_sublist _ _)
 
 theorem newEnt_SInv (s : State) (k h seed : Nat) (r : Option Str) (hh : HInv s)
-    (hi : SInv s.spaces (hs s) s.next) :
-    SInv (newEnt s k h seed r).1.spaces (hs (newEnt s k h seed r).1) (newEnt s k h seed r).1.next := by
+    (hi : SInv s.spaces (hs s) s.next) (subs : List Nat) :
+    SInv (newEnt s k h seed r subs).1.spaces (hs (newEnt s k h seed r subs).1) (newEnt s k h seed r subs).1.next := by
   unfold newEnt
   split
   · exact hi
@@ -569,14 +797,98 @@ theorem reload_hs (s : State) (seed : Nat) : hs (step s (.reload seed)).1 = hs s
   · apply map_fields_hs; intro x; split <;> rfl
   · rfl
 
+theorem dropAll_SInv : ∀ (l : List Nat) (s : State), SInv s.spaces (hs s) s.next →
+    SInv (dropAll s l).spaces (hs (dropAll s l)) (dropAll s l).next
+  | [], _, h => h
+  | a :: r, s, h => by
+    simp only [dropAll, List.foldl_cons]
+    exact dropAll_SInv r _ (dropContainer_SInv s a h)
+
+theorem allH_mapFilter2_sublist (sp : List (Nat × List Nat)) (q : Nat → Nat → Bool) :
+    (allH (sp.map (fun p => (p.1, p.2.filter (q p.1))))).Sublist (allH sp) := by
+  induction sp with
+  | nil => simp [allH]
+  | cons p r ih =>
+    simp only [List.map_cons]
+    rw [allH_cons, allH_cons]
+    exact List.Sublist.append List.filter_sublist ih
+
+theorem setSpace_setSpace (sp : List (Nat × List Nat)) (k : Nat) (f g : List Nat → List Nat) :
+    setSpace (setSpace sp k f) k g = setSpace sp k (fun l => g (f l)) := by
+  simp only [setSpace, List.map_map]
+  apply List.map_congr_left
+  intro p _
+  simp only [Function.comp_def]
+  split <;> simp_all
+
+/-- appending a list of pairwise distinct handles that occur nowhere keeps the space invariant -/
+theorem SInv.appendList {sp H n} (h : SInv sp H n) (k : Nat) : ∀ (l : List Nat), l.Nodup →
+    (∀ x ∈ l, x ∉ allH sp) → (∀ x ∈ l, x ∈ H) → SInv (setSpace sp k (· ++ l)) H n
+  | [], _, _, _ => by
+    have : setSpace sp k (· ++ []) = sp := by
+      simp only [setSpace, List.append_nil]
+      rw [← List.map_id sp, List.map_map]
+      apply List.map_congr_left
+      intro p _; simp
+    rw [this]; exact h
+  | x :: r, hn, hno, hH => by
+    have h1 := h.append k x (hno x (by simp)) (hH x (by simp))
+    have hn' := List.nodup_cons.mp hn
+    have := SInv.appendList h1 k r hn'.2 (by
+      intro y hy hm
+      rcases mem_allH_setSpace_append hm with hm | rfl
+      · exact hno y (by simp [hy]) hm
+      · exact hn'.1 hy) (fun y hy => hH y (by simp [hy]))
+    rw [setSpace_setSpace] at this
+    have hfun : (fun l : List Nat => l ++ [x] ++ r) = (fun l => l ++ x :: r) := by
+      funext l; simp
+    rw [hfun] at this
+    exact this
+
+theorem explodeMid_SInv {s : State} {k : Nat} {src : List Nat} {news : List (Nat × List Nat)} {texts : List Nat}
+    {seed : Nat} (hh : HInv s) (hi : SInv s.spaces (hs s) s.next) (hshape : shapeOk s src news = true)
+    (hfresh : freshOk s ((news.map (fun p => p.1 :: p.2)).flatten) seed = true) (htexts : textsOk s texts = true) :
+    SInv (explodeMid s k src news texts seed).spaces (hs (explodeMid s k src news texts seed)) seed := by
+  obtain ⟨hn, hb⟩ := explode_new_handles hfresh htexts
+  simp only [hs, explodeMid, List.map_append]
+  rw [explodeEnts_hs s k src news texts (shapeOk_len hshape)]
+  have hi' : SInv s.spaces (s.ents.map (·.h) ++ (news.map (·.1) ++ texts)) seed :=
+    hi.mono (freshOk_seed hfresh) (fun x hx => List.mem_append_left _ hx)
+  refine hi'.appendList k _ hn ?_ (fun x hx => List.mem_append_right _ hx)
+  intro x hx hm
+  have hxs : x ∈ hs s := hi.2.2.2 x hm
+  rcases (hb x hx).1 with h1 | h1
+  · have := hh.2 x hxs; omega
+  · exact h1 hxs
+
+theorem explodeCore_SInv {s s' : State} {e k : Nat} {src : List Nat} {news : List (Nat × List Nat)} {texts : List Nat}
+    {seed : Nat} (hh : HInv s) (hi : SInv s.spaces (hs s) s.next)
+    (hshape : shapeOk s src news = true)
+    (hfresh : freshOk s ((news.map (fun p => p.1 :: p.2)).flatten) seed = true) (htexts : textsOk s texts = true)
+    (hcore : explodeCore s e k src news texts seed = some s') : SInv s'.spaces (hs s') s'.next := by
+  have hH := explodeCore_hs hshape hcore
+  obtain ⟨s2, h2, hs'⟩ := explodeCore_parts hcore
+  have hmid := explodeMid_SInv (k := k) hh hi hshape hfresh htexts
+  have h3 := unlinkCore_SInv h2 hmid
+  have a := unlinkCore_same _ _ _ _ h2
+  rw [hH.1, hH.2]
+  have hsp : s'.spaces = s2.spaces := by rw [hs']; rfl
+  rw [hsp]
+  have : hs s2 = hs s ++ (news.map (·.1) ++ texts) := by
+    rw [a.1]; simp only [hs, explodeMid, List.map_append]
+    rw [explodeEnts_hs s k src news texts (shapeOk_len hshape)]
+  rw [← this]
+  have hn2 : s2.next = seed := by rw [a.2]; rfl
+  rw [← hn2]; exact h3
+
 /-- one step preserves the invariant (for `add_entity` under its documented caller obligation) -/
 theorem step_Inv (s : State) (op : Op) (h : DocInv s) (hok : OpOk s op) : DocInv (step s op).1 := by
   refine ⟨step_HInv s op h.1, ?_⟩
   obtain ⟨hh, hi⟩ := h
   have hg := step_grow s op
   cases op with
-  | add k h seed => exact newEnt_SInv _ _ _ _ _ hh hi
-  | ins k n h seed => exact newEnt_SInv _ _ _ _ _ hh hi
+  | add k h seed => exact newEnt_SInv _ _ _ _ _ hh hi _
+  | ins k n h seed => exact newEnt_SInv _ _ _ _ _ hh hi _
   | unlink k e =>
     simp only [step]; split
     · rename_i h1; exact unlinkCore_SInv h1 hi
@@ -607,12 +919,63 @@ theorem step_Inv (s : State) (op : Op) (h : DocInv s) (hok : OpOk s op) : DocInv
     simp only [step]
     have hsame := destroyEnt_same s e
     rw [hsame.1, hsame.2, destroyEnt_spaces]; exact hi
-  | copy e k h seed =>
+  | copy e k h subs seed =>
     simp only [step]; split
     · split
-      · exact newEnt_SInv _ _ _ _ _ hh hi
+      · split
+        · exact newEnt_SInv _ _ _ _ _ hh hi _
+        · exact hi
       · exact hi
     · exact hi
+  | addL k r h subs seed => exact newEnt_SInv _ _ _ _ _ hh hi _
+  | explode e news seed =>
+    rcases explode_cases s e news seed with ⟨er, h0⟩ | ⟨x, name, k, b, s', hx, hal, hr, ho, hsp, hb, hshape, hfresh, htexts, hcore, hstep⟩
+    · rw [h0]; exact hi
+    · rw [hstep]
+      exact explodeCore_SInv hh hi hshape hfresh htexts hcore
+  | audit seed =>
+    simp only [step]; split
+    · rename_i hle
+      show SInv (auditLayouts (auditSpaces s)).spaces (hs (audit s).1) seed
+      rw [audit_hs]
+      obtain ⟨bl, hbl⟩ := auditLayouts_eq (auditSpaces s)
+      rw [hbl]
+      show SInv (dropAll (auditSpaces s) (orphanBlocks (auditSpaces s))).spaces (hs s) seed
+      have h1 : SInv (auditSpaces s).spaces (hs (auditSpaces s)) (auditSpaces s).next :=
+        hi.sub (by simp [auditSpaces, keys, List.map_map, Function.comp_def]) (by
+          simp only [auditSpaces]; exact allH_mapFilter2_sublist _ _)
+      have h2 := dropAll_SInv (orphanBlocks (auditSpaces s)) (auditSpaces s) h1
+      have hsame := dropAll_same (orphanBlocks (auditSpaces s)) (auditSpaces s)
+      rw [hsame.1, hsame.2] at h2
+      exact SInv.mono h2 (by show s.next ≤ seed; simpa using hle) (fun x hx => hx)
+    · exact hi
+  | addEntry t n seed =>
+    simp only [step]; split
+    · exact hi
+    · split
+      · rename_i hf
+        exact hi.mono (freshOk_seed hf) (fun x hx => hx)
+      · exact hi
+  | delEntry t n => simp only [step]; split <;> exact hi
+  | dupEntry t a b seed =>
+    simp only [step]; split
+    · exact hi
+    · split
+      · rename_i hf
+        exact hi.mono (freshOk_seed hf) (fun x hx => hx)
+      · exact hi
+  | newGroup n h seed =>
+    simp only [step]; split
+    · exact hi
+    · split
+      · rename_i hf
+        exact hi.mono (freshOk_seed hf) (fun x hx => hx)
+      · exact hi
+  | setGroup n ms =>
+    simp only [step]; split
+    · exact hi
+    · split <;> exact hi
+  | delGroup n => simp only [step]; split <;> exact hi
   | purge =>
     rw [purge_hs]
     simp only [step]
@@ -756,7 +1119,7 @@ theorem spec_add (s : State) (k h seed : Nat) (sp : List Nat) (hsp : spaceOf s k
     content (step s (.add k h seed)).1 k = content s k ++ [h] ∧
     ∀ k', k' ≠ k → content (step s (.add k h seed)).1 k' = content s k' := by
   obtain ⟨s', hs'⟩ : ∃ s', s' = (step s (.add k h seed)).1 := ⟨_, rfl⟩
-  have hE : s'.ents = s.ents ++ [⟨h, true, some k, true, none, isPaperBr s k⟩] := by
+  have hE : s'.ents = s.ents ++ [⟨h, true, some k, true, none, isPaperBr s k, []⟩] := by
     simp [hs', step, newEnt, hsp, hf]
   have hS : s'.spaces = setSpace s.spaces k (· ++ [h]) := by
     simp [hs', step, newEnt, hsp, hf]
